@@ -1,0 +1,18 @@
+//go:build verif
+
+// Contracts for the deductive verifier in /verif (comment-only: adds no declarations).
+package util
+
+//@ import "os"
+//@ use logging
+
+// ---- C19: private keys reach only files readable solely by the user ---------------------------------------------
+// The private key goes to privateKeyPath through ioutil.WriteFile, whose third argument is the mode of a newly
+// created file: it must be 0600. (If that call disappears the clause fails as "call-missing".)
+//@ func writeSSHKeyPairToFile
+//@   atcall io/ioutil.WriteFile requires (name string, data []byte, perm os.FileMode) :: name == privateKeyPath ==> perm == 0600   #C19.key-file-0600 @C19
+// Private keys are serialised only by the functions that write key files (client) or generate a new configuration
+// (server tooling); in particular by nothing in lib/client/twofa, which builds every request the client sends.
+//@ callers crypto/x509.MarshalPKCS1PrivateKey only writeSSHKeyPairToFile, keymasterd.generateArmoredEncryptedCAPrivateKey, keymasterd.generateRSAKeyAndSaveInFile  #C19.pkcs1-private-only-to-key-files @C19
+//@ callers crypto/x509.MarshalPKCS8PrivateKey only writeSSHKeyPairToFile, keymaster.generateAwsRoleCert, keymaster.setupCerts  #C19.pkcs8-private-only-to-key-files @C19
+//@ callers golang.org/x/crypto/ssh.MarshalPrivateKey only keymaster.insertSSHCertIntoAgentORWriteToFilesystem  #C19.ssh-private-only-to-key-file @C19
